@@ -1,12 +1,12 @@
 #!/bin/bash
 # usage: tools/benign_run.sh <name> [props...] -- apply a behaviour-preserving twin in a scratch worktree and run checks (all by default); every rc must be 0
 n=$1; shift; props=${@:-C01 C02 C03 C04 C05 C06 C07 C08 C09 C10 C11 C12 C13 C14 C15 C16 C17 C18 C19}
-wt=$(mktemp -d /tmp/benignwt-XXXXXX); rmdir $wt
-git -C /repo worktree add --detach -q $wt HEAD >/dev/null 2>&1
-git -C $wt apply /verif/selftest/benign/$n.diff || { echo "$n: APPLY FAILED"; git -C /repo worktree remove --force $wt; exit 9; }
+wt=$(mktemp -d /tmp/benignwt-XXXXXX)
+mkdir -p $wt/firmware; cp -r /repo/middleware /repo/docs $wt/; cp -r /repo/firmware/src $wt/firmware/
+(cd $wt && git apply --whitespace=nowarn /verif/selftest/benign/$n.diff) || { echo "$n: APPLY FAILED"; rm -rf $wt; exit 9; }
 for p in $props; do
   out=$(VERIF_SCRATCH_EVIDENCE=$wt/.ev /verif/check $p --repo $wt --quiet 2>&1); rc=$?
   [ $rc -ne 0 ] && { echo "$n: $p rc=$rc"; echo "$out" | grep -E "rule |ANALYSIS-ERROR" | head -5 | cut -c1-700; }
 done
 echo "$n: done"
-git -C /repo worktree remove --force $wt
+rm -rf $wt
